@@ -39,7 +39,7 @@ Definition tinv (s : st) (t : nat) (p : pc) : Prop :=
   | BW3 n _ _ => insec_ok s t /\ incall s t n
   | BW4 n _ _ ex => insec_ok s t /\ incall s t n /\ reg_find n (reg s) = Some ex
   | BW5 n _ _ => insec_ok s t /\ incall s t n /\ reg_find n (reg s) = None
-  | BW6 w => insec_ok s t /\ incall s t (w_name (gw s w)) /\ running s = true /\ fresh s w
+  | BW6 w => insec_ok s t /\ incall s t (w_name (gw s w)) /\ running s = true /\ fresh s w /\ w_tid (gw s w) = t
   | ST0 _ | ST1 _ => True
   | ST2 _ => lock s = Some t
   | ST3 _ => insec_ok s t
